@@ -97,6 +97,47 @@ Fixpoint dom (st : list unf) (a : N) : Prop :=
     Exists (fun t => a <= t_addr t) (n_trans (u_node u)) \/ (u_last u <> None /\ dom rest a)
   end.
 
+(* ---------- trimmed nodes, canonical outputs (used for the fuel bound and for get_key) ---------- *)
+(* a node with a non-empty language, given that its targets have one *)
+Definition trimmed (n : bnode) : Prop := n_final n = true \/ n_trans n <> [].
+Fixpoint strim (E : store) : Prop :=
+  match E with [] => True | (_, s) :: E' => strim E' /\ trimmed (bn_of s) end.
+(* the node on top of the stack is the final node of the last key (unless it is the root) *)
+Definition top_final (st : list unf) : Prop :=
+  forall u, last_opt st = Some u -> length st = 1%nat \/ n_final (u_node u) = true.
+
+(* sum of the pending outputs *)
+Fixpoint psum (st : list unf) : N :=
+  match st with
+  | [] => 0
+  | u :: r => match u_last u with Some (_, o) => o + psum r | None => 0 end
+  end.
+
+(* "the smallest value is 0" for a list of naturals: some value is 0 *)
+Definition has0 (l : kmap) : Prop := exists k, In (k, 0) l.
+(* below every frozen transition the smallest residual value is 0 *)
+Definition Fro (cl : N -> kmap) (n : bnode) : Prop :=
+  forall t, In t (n_trans n) -> has0 (cl (t_addr t)).
+Fixpoint cgood (E : store) : Prop :=
+  match E with [] => True | (_, s) :: E' => cgood E' /\ Fro (elang E') (bn_of s) end.
+(* the same for the stack; for the first [p] nodes (the common prefix with a key being inserted,
+   whose remaining output is [v]) the 0 may still be owed to the pair about to be appended *)
+Fixpoint Cpost (cl : N -> kmap) (st : list unf) (tail : kmap) (p : nat) (v : N) : Prop :=
+  match st with
+  | [] => True
+  | u :: rest =>
+    Fro cl (u_node u) /\
+    match u_last u with
+    | None => True
+    | Some _ =>
+      match p with
+      | O => has0 (Lstk cl rest tail) /\ Cpost cl rest tail O v
+      | S p' => (has0 (Lstk cl rest tail) \/ psum (firstn p' rest) + v = 0) /\ Cpost cl rest tail p' v
+      end
+    end
+  end.
+Definition Cstk (cl : N -> kmap) (st : list unf) : Prop := Cpost cl st [] O 0.
+
 (* ---------- registry ---------- *)
 Definition cell_ok (E : store) (c : cell) : Prop :=
   c_addr c <> NONE_ADDRESS -> exists s, In (c_addr c, s) E /\ bn_of s = c_node c.
@@ -104,6 +145,7 @@ Definition reg_ok (E : store) (r : registry) : Prop := forall i, cell_ok E (rget
 
 (* ---------- bytes ---------- *)
 Definition body (b : builder) : list N := concat (rev (b_out b)).
+Definition bbytes (b : builder) : Prop := Forall (fun x => x < 256) (body b).
 
 Record bytes_ok (ty : N) (E : store) (b : builder) : Prop := mkBytesOk {
   by_ver : b_version b = 3;
@@ -114,6 +156,8 @@ Record bytes_ok (ty : N) (E : store) (b : builder) : Prop := mkBytesOk {
              tiles 3 fuel (rev (body b)) (top_addr E) acc0 = Some (rev E ++ acc0);
   by_la : b_last_addr b = match E with [] => NONE_ADDRESS | _ => top_addr E end
 }.
+
+Definition key_bytes (ks : list key) : N := fold_right (fun k a => len k + a) 0 ks.
 
 (* ---------- the invariant ---------- *)
 Definition lastkey (acc : kmap) : key := match acc with [] => [] | (k, _) :: _ => k end.
@@ -143,7 +187,11 @@ Record inv (ty G rem : N) (E : store) (acc : kmap) (b : builder) : Prop := mkInv
   i_len : b_len b = len acc;
   i_budget : len E + len (b_stack b) + rem <= G;
   i_G : NODE_MAX * G + 100 < U64;
-  i_nacc : len acc + rem <= G      (* hence the key count fits the footer *)
+  i_nacc : len acc + rem <= G;     (* hence the key count fits the footer *)
+  i_kb : key_bytes (keys_of acc) + rem <= G;
+  i_trim : strim E;
+  i_tf : top_final (b_stack b);
+  i_bb : bbytes b
 }.
 Definition last_ok (acc : kmap) (b : builder) : Prop :=
   b_last b = match acc with [] => None | (k, _) :: _ => Some k end.
@@ -152,7 +200,6 @@ Definition last_ok (acc : kmap) (b : builder) : Prop :=
 Definition op_key (o : op) : key := match o with OpInsert k _ => k | OpAdd k => k end.
 Definition op_val (o : op) : N := match o with OpInsert _ v => v | OpAdd _ => 0 end.
 Definition op_ok (o : op) : Prop := Forall (fun b => b < 256) (op_key o) /\ op_val o < U64.
-Definition key_bytes (ks : list key) : N := fold_right (fun k a => len k + a) 0 ks.
 (* every node costs at most NODE_MAX bytes and at most 1 + (total key bytes) nodes are ever created
    (one per byte pushed on the stack, plus the root), so the node area, the 16 header bytes and the
    20 footer bytes stay below 2^64 *)
